@@ -188,3 +188,18 @@ def prefix_eq(x, y, m, W):
 def cpl_violation(a, b, oa, ob, W):
     """z3 Bool: some prefix length m with (a,b agree on m bits) != (images agree on m bits)"""
     return z3.Or(*[prefix_eq(a, b, m, W) != prefix_eq(oa, ob, m, W) for m in range(1, W + 1)])
+
+
+def related(base, m, name, W):
+    """A W-bit term sharing exactly the top m bits with `base`: top m bits of base, then the negated next bit, then
+    fresh free bits (m == W: base itself).  Ranging m over 0..W covers every address exactly once (case split on the
+    common-prefix length with `base`), and makes the shared prefix *syntactically* shared, so that hash terms coincide."""
+    if m >= W:
+        return base
+    parts = []
+    if m > 0:
+        parts.append(z3.Extract(W - 1, W - m, base))
+    parts.append(~z3.Extract(W - m - 1, W - m - 1, base))
+    if W - m - 1 > 0:
+        parts.append(z3.BitVec(name, W - m - 1))
+    return z3.simplify(z3.Concat(*parts)) if len(parts) > 1 else z3.simplify(parts[0])
